@@ -450,12 +450,12 @@ class SmallSet {
 
   node_type extract(const_iterator position) {
     if (isSmall()) {
-      auto vecIt = position.toVecIt();
+      auto vecIt = ToVecIt(position);
       node_type nt(std::move(*const_cast<typename VecType::iterator>(vecIt)), get_allocator());
       _vec.erase(vecIt);
       return nt;
     }
-    auto setIt = position.toSetIt();
+    auto setIt = ToSetIt(position);
     auto setNt = _set.extract(setIt);
     node_type nt(std::move(setNt.value()), setNt.get_allocator());
     return nt;
@@ -618,6 +618,17 @@ class SmallSet {
   template <class I>
   static inline SetIt ToSetIt(I it, typename std::enable_if<!std::is_same<I, const T *>::value>::type * = 0) {
     return it.toSetIt();
+  }
+
+  template <class I>
+  static inline typename VecType::const_iterator ToVecIt(
+      I it, typename std::enable_if<std::is_same<I, const T *>::value>::type * = 0) {
+    return it;
+  }
+  template <class I>
+  static inline typename VecType::const_iterator ToVecIt(
+      I it, typename std::enable_if<!std::is_same<I, const T *>::value>::type * = 0) {
+    return it.toVecIt();
   }
 
   template <class V>
